@@ -132,32 +132,49 @@ type c16Shape struct {
 	nMetrics, nTags, nCommon int // -1 = nil slice
 	nameLen                  int
 	tagLen                   int
-	invalidUTF8              bool
+	strKind                  int // 0 ASCII, 1 leading invalid byte, 2 multi-byte runes (2, 3 and 4 bytes), 3 every byte value incl. NUL and lone continuation bytes
 	i64                      int64
 	f64                      float64
 	mtype                    m3thrift.MetricType
 }
 
 func (s c16Shape) String() string {
-	return fmt.Sprintf("metrics=%d tags=%d common=%d nameLen=%d tagLen=%d invalid=%v i64=%d f64bits=%#x type=%d", s.nMetrics, s.nTags, s.nCommon, s.nameLen, s.tagLen, s.invalidUTF8, s.i64, math.Float64bits(s.f64), int(s.mtype))
+	return fmt.Sprintf("metrics=%d tags=%d common=%d nameLen=%d tagLen=%d strKind=%v i64=%d f64bits=%#x type=%d", s.nMetrics, s.nTags, s.nCommon, s.nameLen, s.tagLen, s.strKind, s.i64, math.Float64bits(s.f64), int(s.mtype))
 }
 
-func mkStr(n int, invalid bool, salt int) string {
+func mkStr(n int, kind int, salt int) string {
 	if n <= 0 {
 		return ""
 	}
 	var b strings.Builder
+	switch kind {
+	case 2:
+		runes := []string{"\u00e9", "\u20ac", "\U0001F600", "z"}
+		for i := 0; b.Len() < n; i++ {
+			r := runes[(i+salt)%len(runes)]
+			if b.Len()+len(r) > n {
+				r = "q"
+			}
+			b.WriteString(r)
+		}
+		return b.String()
+	case 3:
+		for i := 0; i < n; i++ {
+			b.WriteByte(byte((i*37 + salt*11) % 256))
+		}
+		return b.String()
+	}
 	for i := 0; i < n; i++ {
 		b.WriteByte(byte('a' + (i+salt)%26))
 	}
 	s := b.String()
-	if invalid {
+	if kind == 1 {
 		s = "\xff" + s[1:]
 	}
 	return s
 }
 
-func mkTags(n, l int, invalid bool) []m3thrift.MetricTag {
+func mkTags(n, l int, invalid int) []m3thrift.MetricTag {
 	if n < 0 {
 		return nil
 	}
@@ -169,12 +186,12 @@ func mkTags(n, l int, invalid bool) []m3thrift.MetricTag {
 }
 
 func (s c16Shape) build() *m3thrift.MetricBatch {
-	b := &m3thrift.MetricBatch{CommonTags: mkTags(s.nCommon, s.tagLen, s.invalidUTF8)}
+	b := &m3thrift.MetricBatch{CommonTags: mkTags(s.nCommon, s.tagLen, s.strKind)}
 	if s.nMetrics >= 0 {
 		b.Metrics = make([]m3thrift.Metric, s.nMetrics)
 	}
 	for i := range b.Metrics {
-		m := m3thrift.Metric{Name: mkStr(s.nameLen, s.invalidUTF8, i), Timestamp: s.i64 ^ int64(i), Tags: mkTags(s.nTags, s.tagLen, s.invalidUTF8)}
+		m := m3thrift.Metric{Name: mkStr(s.nameLen, s.strKind, i), Timestamp: s.i64 ^ int64(i), Tags: mkTags(s.nTags, s.tagLen, s.strKind)}
 		m.Value.MetricType = s.mtype
 		switch s.mtype {
 		case m3thrift.MetricType_COUNTER:
@@ -262,9 +279,13 @@ func c16Jobs(tier string) []*SeqJob {
 		s.nameLen = l
 		shapes = append(shapes, s)
 	}
-	s := base
-	s.invalidUTF8 = true
-	shapes = append(shapes, s)
+	for kind := 1; kind <= 3; kind++ {
+		for _, l := range []int{5, 61, 127, 128, 300} {
+			s := base
+			s.strKind, s.nameLen, s.tagLen = kind, l, l
+			shapes = append(shapes, s)
+		}
+	}
 	// a metric whose value struct is entirely zero (kind INVALID, all numbers 0), and zero values of every kind
 	for _, ty := range types {
 		z := base
@@ -313,7 +334,7 @@ func c16Jobs(tier string) []*SeqJob {
 			}
 		}
 		ctx.Alphabet(fmt.Sprintf("metric counts %v", counts), fmt.Sprintf("tags per metric %v", tagCounts), fmt.Sprintf("common tags %v", commons),
-			fmt.Sprintf("every string length 0..%d, 1024, 4096, 70000; invalid UTF-8", maxLen), fmt.Sprintf("%d int64 values (one per varint length class and sign)", len(varintAlphabet())),
+			fmt.Sprintf("every string length 0..%d, 1024, 4096, 70000; strings with an invalid byte, with 2/3/4-byte runes and with every byte value", maxLen), fmt.Sprintf("%d int64 values (one per varint length class and sign)", len(varintAlphabet())),
 			fmt.Sprintf("doubles %v", c16Doubles()), "metric types 0..3", "compact, binary")
 		if !ctx.st.TimedOut && ctx.viol == nil {
 			ctx.DepthDone(1)
@@ -386,7 +407,7 @@ func c16Jobs(tier string) []*SeqJob {
 	ubCheck := func(kind string, ty m3thrift.MetricType, nameLen, nTags int, vi int) (string, string) {
 		c := newCodec(kind)
 		mk := func(i64 int64, f64 float64, ts int64) *m3thrift.Metric {
-			m := &m3thrift.Metric{Name: mkStr(nameLen, false, 0), Timestamp: ts, Tags: mkTags(nTags, 4, false)}
+			m := &m3thrift.Metric{Name: mkStr(nameLen, 0, 0), Timestamp: ts, Tags: mkTags(nTags, 4, 0)}
 			if nTags == 0 {
 				m.Tags = nil
 			}
